@@ -20,7 +20,28 @@ ASSUMPTIONS = [
 ]
 KERNEL_SAMPLE = {"quick": 200, "thorough": 2000}
 PROFILES = ["debug"]
-MANIFEST = dict(text="", design="DESIGN.md section 5 C17", note="", technique="")
+MANIFEST = dict(
+    text=("Coq theorems over a hand-written model of vm/transform.rs (as written, iterator state machines, per-variable "
+          "cursors, with fix F15) against an R7RS 4.3.2 specification (Model/SRSpec.v): definition-time analysis is total "
+          "for every datum (no fuel, never Panic); on the decidable fragment S_match (proper-list patterns nested to any "
+          "depth, literals, _, one ellipsis per level after a pattern variable with a fixed tail of any length; uses "
+          "that do not leave exactly the tail's length at such an ellipsis) pattern_match with the entry point's fuel "
+          "returns exactly the R7RS match and its bindings are the flat reading of the R7RS environment; the rule loop "
+          "selects the first R7RS-matching rule; eleven refutation lemmas with concrete witnesses for the recorded "
+          "classes outside the fragment (nested ellipsis, variable twice under an ellipsis incl. a non-terminating "
+          "one, vector/dotted templates, ellipsis variable without ellipsis, stale cursor, dotted patterns, ellipsis "
+          "tail with zero items, vector patterns). Tied to /repo by generated transformers x uses through the direct "
+          "API and through Vm::eval, 3-way (impl / extracted model / vm_compute) plus an independent Python R7RS "
+          "oracle; every oracle failure must fall in a recorded class."),
+    design="DESIGN.md section 5 C17",
+    note=("OPEN (stated in Props/C17.v as Definitions, not proved): C17_expand_sound_stmt (expand = R7RS instantiation on "
+          "S_tmpl within the entry point's fuel) and C17_main_stmt (whole pipeline on the supported fragment); ellipsis "
+          "after a sub-pattern/sub-template is outside the proved fragment and covered by the differential check and "
+          "the oracle only. Trusted: Coq kernel, the hand-written model (differential correspondence, sampling), "
+          "extraction + OCaml driver (cross-checked in-kernel on a sub-sample), Rust harness (worker subprocess with "
+          "time/address-space limit = TIMEOUT), Python oracle lib/props/srspec.py (cross-checked against Model/SRSpec.v "
+          "through wire interface 52 during development). Axioms: none (all theorems closed under the global context)."),
+    technique="Rocq/Coq proof (induction over patterns/uses, loop invariants of the iterator state machine) + model/implementation correspondence check")
 
 VARS = ["a", "b", "c", "d", "e", "f", "g", "h"]
 LITS = ["lit", "else"]
@@ -112,8 +133,11 @@ class Gen:
             if pvars and r2 < 0.7:
                 # prefer variables whose depth equals the current depth, sometimes wrong
                 good = [v for v, d in pvars if d == cur_depth]
-                if good and rng.random() < 0.85:
+                if good and rng.random() < 0.96:
                     return Sy(rng.choice(good))
+                zero = [v for v, d in pvars if d == 0]
+                if zero and rng.random() < 0.7:
+                    return Sy(rng.choice(zero))
                 return Sy(rng.choice(pvars)[0])
             return rng.choice([1, 2, Sy("x"), Sy("k"), Sy("lit"), True, ("str", "s"), []])
         n = rng.choice([1, 1, 2, 2, 3, 4])
@@ -278,7 +302,9 @@ CORPUS = [
     ("() ((_ a ...) '(1 ...))", "(m 1 2)"),
     ("() ((_ a ...) '((f) ...))", "(m 1 2)"),
     ("() ((_ a ...) '((a ...) ...))", "(m 1 2)"),
+    ("() ((_ (x y) ...) '(((x y) ...) (y ...)))", "(m (1 a) (2 b))"),
     ("() ((_ (x x* ...) (y y* ...)) '(+ (* x y) (* x* y*) ...))", "(m (10 20 30) (10 20 30))"),
+    ("(else) ((_ a) '(one a)) ((_ a b ... else (c d)) '(d (a) (b ...) c b ...)) ((_ x ...) '(x ...))", "(m 1 2 3 else (4 5))"),
     ("(add sub) ((_ add a b) '(+ a b)) ((_ sub a b) '(- a b))", "(m sub 1 2)"),
     ("::: () ((_ a :::) '(a ::: ...))", "(m 1 2)"),
     ("(_) ((m _ a) 'a)", "(m _ 2)"),
@@ -407,7 +433,146 @@ def nontrivial(case, impl_line):
     return impl_line.startswith("OK ")
 
 
+# ------------------------------------------------- recorded classes (known_findings.json)
+def _walk(t):
+    yield t
+    if isinstance(t, list):
+        for x in t:
+            yield from _walk(x)
+    elif isinstance(t, (R.Dot, R.Vec)):
+        for x in t.items:
+            yield from _walk(x)
+        if isinstance(t, R.Dot):
+            yield from _walk(t.tail)
+
+
+def _syms(t):
+    return [x.name for x in _walk(t) if isinstance(x, R.Sym)]
+
+
+def _pattern_features(Rl, body):
+    f = set()
+    for x in _walk(body):
+        if isinstance(x, R.Dot):
+            f.add("dotted-pattern")
+        if isinstance(x, R.Vec):
+            f.add("vector-pattern-literal")
+    if isinstance(body, R.Sym):
+        f.add("dotted-pattern")          # (_ . a)
+    return f
+
+
+def _template_features(Rl, body, t):
+    """syntactic features of a template, each naming one branch of expand()/check_template_syntax"""
+    f = set()
+    try:
+        pv = Rl.vars_of(body)
+    except R.Invalid:
+        pv = {}
+    ev = {v for v, d in pv.items() if d >= 1}
+    order = []          # (kind, payload) in traversal order, for the stale-cursor test
+
+    def items_of(x):
+        return x if isinstance(x, list) else x.items
+
+    def visit(x, depth):
+        if isinstance(x, R.Sym):
+            if x.name in ev and depth < pv[x.name]:
+                f.add("ellipsis-var-without-ellipsis")
+            return
+        if isinstance(x, R.Vec):
+            if any(isinstance(y, R.Sym) and (y.name in pv or Rl.is_ell(y)) for y in _walk(x)):
+                f.add("pattern-var-in-dotted-or-vector-template")
+            return
+        if isinstance(x, R.Dot):
+            f.add("pattern-var-in-dotted-or-vector-template")
+        if isinstance(x, (list, R.Dot)):
+            its = items_of(x)
+            for i, y in enumerate(its):
+                if Rl.is_ell(y):
+                    continue
+                followed = i + 1 < len(its) and Rl.is_ell(its[i + 1])
+                if followed:
+                    inner = [s for s in _syms(y) if s in ev]
+                    if any(Rl.is_ell(z) for z in _walk(y)):
+                        f.add("nested-ellipsis")
+                    if len(inner) != len(set(inner)):
+                        f.add("var-twice-under-ellipsis")
+                    if isinstance(y, (list, R.Dot)) and len(set(inner)) >= 2:
+                        order.append(("multi", inner))
+                    else:
+                        order.append(("use", inner))
+                    visit(y, depth + 1)
+                else:
+                    if isinstance(y, R.Sym):
+                        order.append(("use", [y.name] if y.name in ev else []))
+                    visit(y, depth)
+            if isinstance(x, R.Dot):
+                visit(x.tail, depth)
+
+    visit(t, 0)
+    # stale cursor: a variable of a multi-variable ellipsis sub-template, other than its first
+    # one, is used again later in the template
+    for i, (k, vs) in enumerate(order):
+        if k == "multi":
+            first = vs[0]
+            later = {v for _, ws in order[i + 1:] for v in ws}
+            if any(v != first and v in later for v in vs):
+                f.add("stale-cursor")
+    return f
+
+
+CLASS_ORDER = ["dotted-pattern", "vector-pattern-literal", "ellipsis-tail-zero-items",
+               "pattern-var-in-dotted-or-vector-template", "nested-ellipsis", "var-twice-under-ellipsis",
+               "ellipsis-var-without-ellipsis", "stale-cursor"]
+HANG_CLASSES = {"var-twice-under-ellipsis", "nested-ellipsis"}
+
+
+def case_features(case):
+    dt, ut = split_case(case)
+    try:
+        d = R.read(dt)
+        u = R.read(ut)
+    except R.ReadError:
+        return set()
+    info = {}
+    R.expand_use(d, u, quoted_value=(case[0] == 51), info=info)
+    if "bodies" not in info:
+        return set()
+    Rl, bodies = info["rules"], info["bodies"]
+    f = set()
+    sel = info.get("selected")
+    if sel is None:
+        # the specification selects no rule (or rejects the definition): any rule may have been taken
+        for body, t in bodies:
+            f |= _pattern_features(Rl, body) | _template_features(Rl, body, t)
+        return f
+    # rules before the selected one did not match by R7RS either; the selected rule is the one
+    # transform.rs must take, unless its matcher falls through
+    body, t = bodies[sel]
+    f |= _pattern_features(Rl, body)
+    if info.get("zero_tail"):
+        f.add("ellipsis-tail-zero-items")
+    f |= _template_features(Rl, body, t)
+    return f
+
+
 def known_class(case, impl_line, model_line):
+    """a recorded class only for a case on which the property fails, and only when the rule the
+    specification selects shows the syntactic feature the class names"""
+    msg = oracle(case, impl_line)
+    if not msg:
+        return None
+    f = case_features(case)
+    if msg.startswith("hang"):
+        for c in CLASS_ORDER:
+            if c in f and c in HANG_CLASSES:
+                return c
+        return None
+    if msg.startswith(("misexpansion", "accepted-invalid")):
+        for c in CLASS_ORDER:
+            if c in f:
+                return c
     return None
 
 
